@@ -1,6 +1,7 @@
 ------------------------------- MODULE ObsC10 -------------------------------
 (* C10 (layer A) evaluated on one record per declared entrypoint of an accepted program:
-     [id, key, E (the bundle: reader with nested readers inlined, normalization AST, parsed operation incl. variables)]
+     [id, key, E (the bundle: reader with nested readers inlined, normalization AST, parsed operation; vars: the
+      variables the entrypoint's client field declares in the abstract program)]
    For every valuation of the entrypoint's variables (each nullable variable also null/absent), both leaf modes
    (every nullable leaf null / non-null) and every conforming response (Runtime.tla Responses: null / non-null where
    the schema allows, list lengths 0..MaxLen per depth, every concrete type at abstract positions, own id per object),
@@ -22,10 +23,10 @@ Modes == {[nulls |-> b, maxLen |-> MaxLens] : b \in BOOLEAN}
 
 \* all experiments of a record: <<nulls (set of null variables), mode, response>>
 Failures(E) ==
-  UNION {UNION {{[nullVars |-> nulls, leafNulls |-> M.nulls, r |-> Experiment(E, resp, Valuation(E.op, nulls))]
+  UNION {UNION {{[nullVars |-> nulls, leafNulls |-> M.nulls, r |-> Experiment(E, resp, Valuation(E, nulls))]
                   : resp \in Responses(E.op, M)}
                 : M \in Modes}
-         : nulls \in {ns \in SUBSET NullableVars(E.op) : ~KeyCollision(E.norm, Valuation(E.op, ns))}}
+         : nulls \in {ns \in SUBSET NullableVars(E) : ~KeyCollision(E.norm, Valuation(E, ns))}}
 
 RECURSIVE Take(_, _)
 Take(Q, n) == IF n = 0 \/ Q = {} THEN {} ELSE LET x == CHOOSE y \in Q : TRUE IN {x} \cup Take(Q \ {x}, n - 1)
@@ -35,8 +36,8 @@ Judge(r) ==
       nResp == Cardinality(UNION {Responses(E.op, M) : M \in Modes})
       all == Failures(E)
       bad == {x \in all : x.r.k # "ok"}
-      vals == {ns \in SUBSET NullableVars(E.op) : ~KeyCollision(E.norm, Valuation(E.op, ns))}
-  IN [n |-> Cardinality(vals) * nResp, skipped |-> Cardinality(SUBSET NullableVars(E.op)) - Cardinality(vals), nBad |-> Cardinality(bad),
+      vals == {ns \in SUBSET NullableVars(E) : ~KeyCollision(E.norm, Valuation(E, ns))}
+  IN [n |-> Cardinality(vals) * nResp, skipped |-> Cardinality(SUBSET NullableVars(E)) - Cardinality(vals), nBad |-> Cardinality(bad),
       bad |-> Take({[nullVars |-> x.nullVars, leafNulls |-> x.leafNulls,
                      r |-> IF x.r.k = "missing" THEN [k |-> "missing", why |-> x.r.why, path |-> x.r.path, key |-> x.r.key]
                            ELSE x.r] : x \in bad}, MaxFail)]
